@@ -41,6 +41,45 @@ var irFuncs = [][2]string{
 	{"Start", "Start"},
 }
 
+// functions whose body is also emitted block by block
+var irBlockFuncs = map[string]bool{"Start": true}
+
+// emitBlocks writes `def <prefix>_<i> : Ir.Stmt` for every statement of the list (an `if` at nesting depth < 3 refers to lists
+// `<prefix>_<i>_t` / `<prefix>_<i>_e` emitted the same way) and `def <prefix> : List Ir.Stmt := [<prefix>_0, ...]`.
+func (t *irTr) emitBlocks(o *strings.Builder, prefix string, ss []ast.Stmt, depth int) {
+	var names []string
+	for _, s := range ss {
+		if is, ok := s.(*ast.IfStmt); ok && depth < 3 {
+			name := fmt.Sprintf("%s_%d", prefix, len(names))
+			initS := "[]"
+			if is.Init != nil {
+				initS = "[" + strings.Join(t.stmt(is.Init, 2), ", ") + "]"
+			}
+			cond := t.sub(is.Cond)
+			t.emitBlocks(o, name+"_t", is.Body.List, depth+1)
+			elseS := "[]"
+			switch e := is.Else.(type) {
+			case nil:
+			case *ast.BlockStmt:
+				t.emitBlocks(o, name+"_e", e.List, depth+1)
+				elseS = name + "_e"
+			default:
+				t.emitBlocks(o, name+"_e", []ast.Stmt{e}, depth+1)
+				elseS = name + "_e"
+			}
+			fmt.Fprintf(o, "def %s : Ir.Stmt :=\n  .ite %s %s %s_t %s\n", name, initS, cond, name, elseS)
+			names = append(names, name)
+			continue
+		}
+		for _, part := range t.stmt(s, 2) {
+			name := fmt.Sprintf("%s_%d", prefix, len(names))
+			fmt.Fprintf(o, "def %s : Ir.Stmt :=\n  %s\n", name, part)
+			names = append(names, name)
+		}
+	}
+	fmt.Fprintf(o, "def %s : List Ir.Stmt := [%s]\n", prefix, strings.Join(names, ", "))
+}
+
 func emitIr(c *Ctx) {
 	fns := c.FuncDecls()
 	o := c.Out
@@ -88,6 +127,23 @@ func emitIr(c *Ctx) {
 		body := t.block(fd.Body.List, 3)
 		fmt.Fprintf(o, "def ir_%s : Ir.Fn :=\n  { name := %s, recv := %s, params := [%s], results := [%s],\n    body := %s }\n\n",
 			p[1], leanString(p[0]), recv, strings.Join(params, ", "), strings.Join(results, ", "), body)
+		if irBlockFuncs[p[0]] {
+			// the same body once more, statement by statement as definitions of their own (`ir_<Name>_b_<i>`, nested for `if`s), so that
+			// symbolic evaluation on the Lean side can leave the statements not yet executed folded; `ir_<Name>_b` is proved equal to
+			// `ir_<Name>.body` by `rfl` (Sessions/FactsIrStartBlocks.lean). A fresh translator is used so that the renaming of locals and the
+			// numbering of loops come out as above.
+			t2 := &irTr{c: c, fd: fd, names: map[*ast.Object]string{}, used: map[string]int{}, imports: irImports(c, fd)}
+			if fd.Recv != nil && len(fd.Recv.List) == 1 && len(fd.Recv.List[0].Names) == 1 {
+				t2.declName(fd.Recv.List[0].Names[0])
+			}
+			for _, f := range fd.Type.Params.List {
+				for _, n := range f.Names {
+					t2.declName(n)
+				}
+			}
+			t2.emitBlocks(o, "ir_"+p[1]+"_b", fd.Body.List, 0)
+			o.WriteString("\n")
+		}
 	}
 	fmt.Fprintf(o, "def irFns : List Ir.Fn := [%s]\n", strings.Join(names, ", "))
 }
